@@ -1020,12 +1020,6 @@ func (g *exrecGen) qBattery(exhaustive int, sampled int) {
 	}
 }
 
-func minInt(a, b int) int {
-	if a < b {
-		return a
-	}
-	return b
-}
 
 func (g *exrecGen) history(thorough bool) {
 	g.mkts = nil
